@@ -13,6 +13,8 @@ pub mod ctx;
 pub mod staging;
 pub mod wire;
 pub mod select;
+pub mod lang;
+pub mod resolve;
 pub mod cbor;
 pub mod ledger;
 
@@ -67,6 +69,7 @@ fn dispatch(case: &Value) -> Value {
         "staging" => staging::run(case),
         "wire" => wire::run(case),
         "select" => select::run(case),
+        "resolve" => resolve::run(case),
         "ping" => json!({"pong": true}),
         other => json!({"tool_error": format!("unknown cmd {other}")}),
     }
